@@ -28,6 +28,7 @@ where
     C: Comments,
 {
     pub(crate) fn extract_props_type(&mut self, setup_fn: &ExprOrSpread) -> Option<Expr> {
+        self.type_resolution_depth.set(0);
         let mut defaults = None;
         let first_param_type = if let ExprOrSpread { expr, spread: None } = setup_fn {
             match &**expr {
@@ -173,6 +174,72 @@ where
             }
             None => Expr::Object(self.build_props_type(first_param_type, None)),
         })
+    }
+
+    /// Type declarations may refer to themselves (`type P = P`, `interface A extends A {}`):
+    /// give up with an error instead of recursing forever.
+    fn enter_type_resolution(&self, span: Span) -> bool {
+        const MAX_TYPE_RESOLUTION_DEPTH: usize = 128;
+        let depth = self.type_resolution_depth.get();
+        if depth == usize::MAX {
+            // already reported for this annotation
+            return false;
+        }
+        if depth >= MAX_TYPE_RESOLUTION_DEPTH {
+            HANDLER.with(|handler| {
+                handler.span_err(span, "Type references itself or is nested too deeply to resolve.");
+            });
+            self.type_resolution_depth.set(usize::MAX);
+            return false;
+        }
+        self.type_resolution_depth.set(depth + 1);
+        true
+    }
+
+    fn leave_type_resolution(&self) {
+        let depth = self.type_resolution_depth.get();
+        if depth != usize::MAX {
+            self.type_resolution_depth.set(depth - 1);
+        }
+    }
+
+    fn resolve_type_elements(&self, ty: &TsType, props: &mut Vec<RefinedTsTypeElement>) {
+        if self.enter_type_resolution(ty.span()) {
+            self.resolve_type_elements_unguarded(ty, props);
+            self.leave_type_resolution();
+        }
+    }
+
+    fn resolve_string_or_union_strings(&self, ty: &TsType) -> Vec<Atom> {
+        if self.enter_type_resolution(ty.span()) {
+            let strings = self.resolve_string_or_union_strings_unguarded(ty);
+            self.leave_type_resolution();
+            strings
+        } else {
+            vec![]
+        }
+    }
+
+    fn resolve_indexed_access(&self, obj: &TsType, index: &TsType) -> Option<TsType> {
+        if self.enter_type_resolution(obj.span()) {
+            let ty = self.resolve_indexed_access_unguarded(obj, index);
+            self.leave_type_resolution();
+            ty
+        } else {
+            None
+        }
+    }
+
+    fn infer_runtime_type(&self, ty: &TsType) -> IndexSet<Option<Atom>> {
+        if self.enter_type_resolution(ty.span()) {
+            let types = self.infer_runtime_type_unguarded(ty);
+            self.leave_type_resolution();
+            types
+        } else {
+            let mut types = IndexSet::with_capacity(1);
+            types.insert(Some(atom!("any")));
+            types
+        }
     }
 
     fn build_props_type(
@@ -377,7 +444,11 @@ where
         }
     }
 
-    fn resolve_type_elements(&self, ty: &TsType, props: &mut Vec<RefinedTsTypeElement>) {
+    fn resolve_type_elements_unguarded(
+        &self,
+        ty: &TsType,
+        props: &mut Vec<RefinedTsTypeElement>,
+    ) {
         match ty {
             TsType::TsTypeLit(TsTypeLit { members, .. }) => {
                 props.extend(members.iter().filter_map(|member| match member {
@@ -613,7 +684,7 @@ where
         }
     }
 
-    fn resolve_string_or_union_strings(&self, ty: &TsType) -> Vec<Atom> {
+    fn resolve_string_or_union_strings_unguarded(&self, ty: &TsType) -> Vec<Atom> {
         match ty {
             TsType::TsLitType(TsLitType {
                 lit: TsLit::Str(key),
@@ -664,7 +735,7 @@ where
         }
     }
 
-    fn resolve_indexed_access(&self, obj: &TsType, index: &TsType) -> Option<TsType> {
+    fn resolve_indexed_access_unguarded(&self, obj: &TsType, index: &TsType) -> Option<TsType> {
         match obj {
             TsType::TsTypeRef(TsTypeRef {
                 type_name: TsEntityName::Ident(ident),
@@ -975,7 +1046,7 @@ where
         }
     }
 
-    fn infer_runtime_type(&self, ty: &TsType) -> IndexSet<Option<Atom>> {
+    fn infer_runtime_type_unguarded(&self, ty: &TsType) -> IndexSet<Option<Atom>> {
         let mut runtime_types = IndexSet::with_capacity(1);
         match ty {
             TsType::TsKeywordType(keyword) => match keyword.kind {
@@ -1152,6 +1223,7 @@ where
     }
 
     pub(crate) fn extract_emits_type(&self, setup_fn: &ExprOrSpread) -> Option<ArrayLit> {
+        self.type_resolution_depth.set(0);
         let TsTypeAnn {
             type_ann: second_param_type,
             ..
